@@ -125,8 +125,49 @@ def extra_checks(tier, seed):
                          note='hierarchical crash-point stream (Hsm.v vs the real hierarchical classes)')))
     else:
         out.append(('hierarchical_crash_points', True, detail, {}))
+    out.append(async_hier_stream(tier, seed))
     out.append(survivor_stream(tier, seed))
     return out
+
+
+def async_hier_stream(tier, seed):
+    """the same crash-point sweep on HierarchicalAsyncMachine / HierarchicalAsyncGraphMachine (callback lists
+    trimmed to one entry so that asyncio.gather has nothing to interleave; coroutine callbacks that suspend)"""
+    import hsm
+    n = 80 if tier == 'quick' else 500
+    bases = []
+    for i in range(n):
+        rng = random.Random('C04ha-%d-%d' % (seed, i))
+        c = hsm.trim_lists(hsm.gen_case(rng, hist_len=rng.randint(2, 5), p_parallel=0.0))
+        c['history'] = [(0, e, a) for (k, e, a) in c['history'] if e < 50]
+        c['env'] = dict(default=c['env']['default'], bypos={p: r for p, r in c['env']['bypos'].items() if r[1] is None},
+                        bycb={k: r for k, r in c['env']['bycb'].items() if r[1] is None})
+        bases.append(c)
+    obs = F.run_model(3, [hsm.enc_case(c) for c in bases])
+    cases = []
+    for i, (c, o) in enumerate(zip(bases, obs)):
+        rng = random.Random('C04hax-%d-%d' % (seed, i))
+        items = [it for step in o[2] for it in step[0]]
+        ks = list(range(len(items)))
+        if tier == 'quick' and len(ks) > 5:
+            ks = sorted(rng.sample(ks, 5))
+        for k in ks:
+            cc = copy.deepcopy(c)
+            cc['env']['bypos'][k] = (bool(items[k][6]), (3 + (k + i) % 2, 7), [])
+            cc['cls'] = ['HierarchicalAsyncMachine', 'HierarchicalAsyncGraphMachine'][(i + k) % 2]
+            cc['crash'] = k
+            cases.append(cc)
+    mo = F.run_model(3, [hsm.enc_case(c) for c in cases])
+    io = F.run_impl('hsm', 'impl_hsm_async', cases)
+    bad = [(c, hsm.mask_handled(c, m), hsm.mask_handled(c, i)) for c, m, i in zip(cases, mo, io)
+           if hsm.mask_handled(c, m) != hsm.mask_handled(c, i)]
+    detail = dict(cases=len(cases), base_cases=len(bases), disagreements=len(bad))
+    if bad:
+        c, m, i = bad[0]
+        return ('hierarchical_async_crash_points', False, detail,
+                dict(kind='counterexample', stream='hierarchical-async', case=c, model_obs=m, impl_obs=i,
+                     note='crash-point stream on the asyncio hierarchical classes (Hsm.v vs HierarchicalAsyncMachine)'))
+    return ('hierarchical_async_crash_points', True, detail, {})
 
 
 ALL_CLASSES = flat.SYNC_CLASSES + flat.ASYNC_CLASSES
